@@ -8,6 +8,7 @@
 //	inspect  sqlite InspectSchema / InspectRealm with kept Exclude values, on a database with tables main, secret
 //	policy   the cmdapi diff policy objects (project file diff { skip {} }) kept and reused over a sequence of diffs (CLI hook)
 //	cli      the real atlas binary: schema inspect/apply --exclude, --env with diff.skip, on SQLite files
+//	consumers  how an exclude list reaches schema inspect/diff/apply: flag values, occurrences, env block (tied to Excl/Consumers.v)
 //	gen      writes coq/theories/gen/Gen_SkipKinds.v from the Go sources
 //
 // Every mode writes the model input (cases.txt), the observations of the real
@@ -25,7 +26,7 @@ import (
 )
 
 func main() {
-	mode := flag.String("mode", "match", "match|exclude|skip|reuse|inspect|policy|cli|gen")
+	mode := flag.String("mode", "match", "match|exclude|skip|reuse|inspect|policy|cli|consumers|gen")
 	tier := flag.String("tier", "quick", "quick|thorough")
 	outDir := flag.String("out", "", "output directory")
 	flag.Parse()
@@ -35,6 +36,14 @@ func main() {
 	}
 	if *mode == "gen" {
 		if err := genSkipKinds(*outDir); err != nil {
+			fmt.Fprintln(os.Stderr, "gen:", err)
+			os.Exit(1)
+		}
+		if err := genExcludeSites(*outDir); err != nil {
+			fmt.Fprintln(os.Stderr, "gen:", err)
+			os.Exit(1)
+		}
+		if err := genChangeSites(*outDir); err != nil {
 			fmt.Fprintln(os.Stderr, "gen:", err)
 			os.Exit(1)
 		}
@@ -57,6 +66,10 @@ func main() {
 		runPolicy(w, *tier)
 	case "cli":
 		runCLI(w, *tier)
+	case "consumers":
+		runConsumers(w, *tier)
+	case "excludex":
+		runExcludeX(w, *tier)
 	default:
 		fmt.Fprintln(os.Stderr, "unknown mode")
 		os.Exit(2)
